@@ -162,8 +162,9 @@ def run_lane(chk, lane_cls, params=(), bounds=None, dev=True, selftest=True, twi
     try:
         merged = explore_parallel(prog, lane_cls, params, dev=dev)
     except Inconclusive as e:
-        if not probe: raise
-        print(f'PROBE lane {lane_cls.name}{params if len(str(params)) < 60 else ""} INCONCLUSIVE after {time.time() - t0:.0f}s: {str(e)[:120]}', file=sys.stderr, flush=True)
+        # a lane that cannot be decided (unsupported construct, budget) never passes, but it does not stop the other
+        # lanes: a replayed violation found by another lane is still reported (exit 1); otherwise the check exits 2
+        if probe: print(f'PROBE lane {lane_cls.name}{params if len(str(params)) < 60 else ""} INCONCLUSIVE after {time.time() - t0:.0f}s: {str(e)[:120]}', file=sys.stderr, flush=True)
         chk.inconclusive.append(f'{lane_cls.name}: {str(e)[:200]}')
         return {'recs': [], 'stats': {}, 'models': [], 'fns': {}, 'cuts': []}
     wall = time.time() - t0
